@@ -633,6 +633,31 @@ impl<'a> LoweringManager<'a> {
   }
 }
 
+/// Turns the escape sequences of a string literal (`\t \v \0 \b \f \n \r \\`) into the
+/// characters they denote. `\"` has already been resolved by the parser.
+fn unescape_string_literal(source: &str) -> String {
+  let mut unescaped = String::with_capacity(source.len());
+  let mut chars = source.chars();
+  while let Some(c) = chars.next() {
+    if c != '\\' {
+      unescaped.push(c);
+      continue;
+    }
+    match chars.next() {
+      Some('t') => unescaped.push('\t'),
+      Some('v') => unescaped.push('\u{b}'),
+      Some('0') => unescaped.push('\0'),
+      Some('b') => unescaped.push('\u{8}'),
+      Some('f') => unescaped.push('\u{c}'),
+      Some('n') => unescaped.push('\n'),
+      Some('r') => unescaped.push('\r'),
+      Some(other) => unescaped.push(other),
+      None => unescaped.push('\\'),
+    }
+  }
+  unescaped
+}
+
 pub(super) fn compile_lir_to_wasm(heap: &mut Heap, sources: lir::Sources) -> wasm::Module {
   let lir::Sources {
     symbol_table: source_symbol_table,
@@ -651,7 +676,8 @@ pub(super) fn compile_lir_to_wasm(heap: &mut Heap, sources: lir::Sources) -> was
   // Collect all string bytes into a single data segment
   let mut data_segment_bytes = Vec::new();
   for (idx, hir::GlobalString(content)) in source_global_variables.iter().enumerate() {
-    let content_str = content.as_str(heap);
+    // The content is the source spelling of the literal: its escape sequences denote characters.
+    let content_str = unescape_string_literal(content.as_str(heap));
     let offset = data_segment_bytes.len();
     let length = content_str.len();
     data_segment_bytes.extend_from_slice(content_str.as_bytes());
